@@ -1168,6 +1168,10 @@ def solve(objfun, x0, h=None, lh=None, prox_uh=None, argsf=(), argsh=(), argspro
     if nruns - last_successful_run >= params("restarts.max_unsuccessful_restarts"):
         exit_info = ExitInformation(EXIT_SUCCESS, "Reached maximum number of unsuccessful restarts")
 
+    # Never report success for a non-finite objective (e.g. every evaluation returned NaN/inf)
+    if exit_info.flag == EXIT_SUCCESS and not np.isfinite(objmin):
+        exit_info = ExitInformation(EXIT_EVAL_ERROR, "Objective value at the best point found is not finite")
+
     # Process final return values & package up
     exit_flag = exit_info.flag
     exit_msg = exit_info.message(with_stem=True)
